@@ -22,6 +22,8 @@ type FaultPlan struct {
 	Fired []string                     // "site key mode"
 	// OnSign, if set, is called for every AccountSigner.Sign invocation before signing.
 	OnSign func(pubKey []byte, root []byte)
+	// AfterSign, if set, is called after every AccountSigner.Sign invocation.
+	AfterSign func(pubKey []byte, root []byte)
 }
 
 // NewFaultPlan creates an empty plan.
@@ -162,7 +164,12 @@ func (a *AccountWrapper) Sign(ctx context.Context, data []byte) (e2types.Signatu
 		return nil, errInjected
 	}
 
-	return a.Account.(e2wtypes.AccountSigner).Sign(ctx, data)
+	sig, err := a.Account.(e2wtypes.AccountSigner).Sign(ctx, data)
+	if a.Plan != nil && a.Plan.AfterSign != nil {
+		a.Plan.AfterSign(pk, data)
+	}
+
+	return sig, err
 }
 
 // NonSignerAccount is an account that can be locked and unlocked but cannot sign.
